@@ -73,7 +73,7 @@ def functions():
 def bounds(tier):
     q = tier == "quick"
     return {
-        "log_messages": 3 if q else 4,
+        "log_messages": 3,
         "script_events": 6 if q else 7,
         "fault_budget": 1 if q else 2,
         "too_small_budget": 1,
@@ -102,7 +102,7 @@ def jobs(tier):
                         "start": start,
                         "proc": proc,
                         "acn": acn,
-                        "n": 3 if q else 4,
+                        "n": 3,
                         "K": 6 if q else 7,
                         "faults": 1 if q else 2,
                     }
@@ -113,7 +113,7 @@ def jobs(tier):
         for proc in ("sync", "async"):
             out.append({"start": start, "proc": proc, "acn": 1 if start == "committed" else None, "n": 3, "K": 5 if q else 6, "faults": 1, "sync": 1})
     for acn in (None, 2):
-        out.append({"start": "num", "proc": "paused", "acn": acn, "n": 3 if q else 4, "K": 6 if q else 7, "faults": 1})
+        out.append({"start": "num", "proc": "paused", "acn": acn, "n": 3, "K": 6 if q else 7, "faults": 1})
     out.append({"kind": "bytes", "batches": 2 if q else 3})
     return out
 
